@@ -30,6 +30,11 @@ func NewUnstable(deviation float64) Unstable {
 
 // AroundDuration 根据给定的基准时长和公差生成一个随机周边时长，± u.deviation。
 func (u Unstable) AroundDuration(base time.Duration) time.Duration {
+	if verifEnabled {
+		if r, ok := verifRand(); ok {
+			return time.Duration((1 + u.deviation - 2*u.deviation*r) * float64(base))
+		}
+	}
 	u.lock.Lock()
 	val := time.Duration((1 + u.deviation - 2*u.deviation*u.r.Float64()) * float64(base))
 	u.lock.Unlock()
@@ -38,6 +43,11 @@ func (u Unstable) AroundDuration(base time.Duration) time.Duration {
 
 // AroundInt 根据给定的基准数值和公差生成一个随机的周边数值，± u.deviation。
 func (u Unstable) AroundInt(base int64) int64 {
+	if verifEnabled {
+		if r, ok := verifRand(); ok {
+			return int64((1 + u.deviation - 2*u.deviation*r) * float64(base))
+		}
+	}
 	u.lock.Lock()
 	val := int64((1 + u.deviation - 2*u.deviation*u.r.Float64()) * float64(base))
 	u.lock.Unlock()
